@@ -7,10 +7,13 @@ EXPLANATION = (
     "logger; every write must be an atomic monotone update (fetch_max or a store of the top element) - a "
     "load-then-store(1) is a check-then-act race whatever guards it; workers capture no shared mutable state; "
     "(R-EXIT) complete list of accessors, drop(tx) before join before the final read; (R-WORKERS) one send per "
-    "worker. With these the status is a max over a schedule-independent set of events.")
+    "worker. (R-FS) file contents: the only file-system mutation anywhere is the single fs::write of format_file, and its "
+    "target is the very path the worker read - no worker creates, renames or writes a file name another worker could "
+    "also touch (a shared temporary name is an interference between workers, invisible with one thread). With these the "
+    "status is a max over a schedule-independent set of events and every file is written by exactly one worker.")
 ASSUMPTIONS = ["SeqCst atomics; threadpool::join waits for all queued jobs",
                "rustc MIR and Instance::try_resolve are trusted"]
 
 
 def run(ctx):
-    return [r_cli.rule_atomic(ctx, "C19"), r_cli.rule_exit(ctx, "C19"), r_cli.rule_workers(ctx, "C19")]
+    return [r_cli.rule_atomic(ctx, "C19"), r_cli.rule_exit(ctx, "C19"), r_cli.rule_workers(ctx, "C19"), r_cli.rule_fs(ctx, "C19")]
